@@ -264,9 +264,13 @@ def feasible(path):
     """False when a branch decision on the path contradicts a constant assigned to the tested name earlier on the same path
     (`x = None` ... `if x is None:` not taken)."""
     env = {}
+    decided = {}   # plain local name -> truth value a test on this path has given it (forgotten when the name is re-bound)
     for e in path.events:
         if e[0] == "stmt":
             st = e[1]
+            for x in ast.walk(st):
+                if isinstance(x, ast.Name) and isinstance(x.ctx, (ast.Store, ast.Del)):
+                    decided.pop(x.id, None)
             tgts = []
             if isinstance(st, ast.Assign):
                 tgts = [t for t in st.targets]
@@ -286,8 +290,14 @@ def feasible(path):
                     return False
                 if a[0] == "truthy" and a[1] in env and bool(env[a[1]]) != a[2]:
                     return False
+                # the same unchanged local tested twice with opposite results
+                if a[0] == "truthy" and isinstance(a[1], str) and a[1].isidentifier():
+                    if a[1] in decided and decided[a[1]] != a[2]:
+                        return False
+                    decided[a[1]] = a[2]
         elif e[0] in ("loop", "with", "handler", "def"):
             env.clear()
+            decided.clear()
     return True
 
 
